@@ -90,6 +90,16 @@ def tier_tree(F, fn):
             elif ".post" in txt: atom = "post"
             if atom is None: return None, "unrecognised condition %s" % txt[:60]
             if atom == "distance" and not (d[0] == "bin" and d[1] == "Gt"): return None, "distance tested with %s" % txt[:40]
+            # the kind of test per field: presence for pre_release / post (a set value, even 0, is printed by the renderers, so the
+            # tier must include it), value-with-default for dirty / distance (Some(false) and Some(0) mean "nothing to show")
+            def presence(e):
+                return e[0] == "call" and str(e[1]).rsplit("::", 1)[-1] in ("is_some", "is_none") or e[0] == "discr"
+            def defaulted(e, dflt):
+                return e[0] == "call" and str(e[1]).endswith("::unwrap_or") and len(e[2]) == 2 and e[2][1] == ("const", dflt) or (e[0] == "call" and str(e[1]).endswith("::unwrap_or_default") and dflt in (0, False))
+            if atom in ("pre_release", "post") and not presence(d): return None, "ATOM-KIND: %s is tested by value (%s), not by presence: a set %s that fails the value test is left out of the tier" % (atom, txt[:60], atom)
+            if atom == "dirty" and not defaulted(d, False): return None, "ATOM-KIND: dirty is tested as %s, expected unwrap_or(false)" % txt[:60]
+            if atom == "distance" and not (defaulted(d[2], 0) and d[3] == ("const", 0)): return None, "ATOM-KIND: distance is tested as %s, expected unwrap_or(0) > 0" % txt[:60]
+            if atom in ("pre_release", "post") and d[0] == "call" and str(d[1]).endswith("is_none"): truth = not truth
             if atom in conds and conds[atom] != truth: conds = None; break      # the same pure test with both outcomes: infeasible path
             conds[atom] = truth
         if conds is None: continue
@@ -118,6 +128,7 @@ def smart_tiers(F, rep, rule):
     rep.fn_seen(st, ca)
     ts, e1 = tier_tree(F, st); tc, e2 = tier_tree(F, ca)
     if ts is None or tc is None:
+        if "ATOM-KIND" in str(e1) + str(e2): rep.bad(rule, "tier-atom-kind", "smart tier selection: %s" % (e1 or e2), st.where()); return None
         rep.bad(rule, "unrecognised-shape:tier-tree", "tier decision tree not extractable: %s / %s" % (e1, e2), st.where()); return None
     iso = all(ts[k][0].replace("standard_", "") == tc[k][0].replace("calver_", "") and ts[k][1] == tc[k][1] for k in ts)
     if iso: rep.ok(rule, "standard and calver tier trees are isomorphic on all 16 assignments of (dirty, distance>0, pre, post)", nontrivial_key="iso")
